@@ -171,6 +171,15 @@ fn one_case(ctx: &Ctx, dir: &std::path::Path, case: u64, seed: u64, rep: &mut Re
             proj.steps[i].effect = Effect::NoOutput;
         }
     }
+    if prop == "C06" && rng.chance(1, 5) {
+        // a command that succeeds but leaves some of its declared outputs unwritten (the first one is
+        // written, later ones are not); consumers of any of them must still get a decision
+        let cands: Vec<usize> = (0..proj.steps.len()).filter(|&i| !proj.steps[i].phony && proj.steps[i].effect == Effect::Write && proj.steps[i].outs.len() + proj.steps[i].iouts.len() >= 2).collect();
+        if !cands.is_empty() {
+            let i = *rng.pick(&cands);
+            proj.steps[i].effect = Effect::SomeOutputs(1);
+        }
+    }
     if prop == "C06" && rng.chance(1, 4) {
         // a scratch header: reported by the command, gone when it finishes
         let cands: Vec<usize> = (0..proj.steps.len()).filter(|&i| proj.steps[i].discovers).collect();
